@@ -18,6 +18,20 @@ var plans = map[string]*plan{
 		Real:   realA, Stub: append([]string{"scripted tq.Adapter in about half of the runs"}, stubA...),
 		Assume: []string{"client and server share the fake clock (no skew)", "bounds come from the documented meaning of lfs.transfer.maxretries / maxretrydelay, not from the implementation's constants"},
 	},
+	"C02": {
+		ID: "C02", Engine: "A", Level: "exploration",
+		Stages: []stage{{"C02.nofault", 4000, 100000}, {"C02", 20000, 1000000}},
+		Rule:   "download queue with the real basic adapter: 1-4 objects (sizes 0..70000), pre-existing .part states (absent, valid prefix, garbage, longer, size-1, exact, 1 byte), garbage at the final path, per-request storage faults (status, body prefix/extra/bitflip/other object/read error, Content-Range variants, no Content-Length, bursts) up to the retry budget, under the gate scheduler. Non-trivial = a fault fired or a decision had >=2 candidates; distinct = distinct full choice trace.",
+		Real:   realA, Stub: stubA,
+		Assume: []string{"a download is 'reported successful' when the object is delivered on Watch(); 'failed' otherwise", "rename failures and other disk errors are outside the statement and not injected"},
+	},
+	"C18": {
+		ID: "C18", Engine: "A", Level: "exploration",
+		Stages: []stage{{"C18.nofault", 4000, 100000}, {"C18", 20000, 1000000}},
+		Rule:   "conformance monitor on the simulated server over every request of the queue workload (real basic adapters, uploads and downloads, ref names with special characters, retries, expiry, 429, per-object errors, omitted/repeated/unknown/foreign entries) plus single-field corruptions of valid batch responses (every JSON position x 13 mutations, drawn per response). Non-trivial = a fault fired or a decision had >=2 candidates; distinct = distinct full choice trace.",
+		Real:   realA, Stub: stubA,
+		Assume: []string{"schemas are read from /repo/docs/api/schemas at run time with the repo's own gojsonschema", "lock API requests are judged by the C16 checks, not here"},
+	},
 }
 
 func runEngineB(p *plan, tier string, base uint64, workers int, scale float64, replay string) int {
